@@ -737,7 +737,7 @@ def dec_crash_site(r, v):
 def check_c16(tier, seed):
     ck = Check('C16', tier, seed, level='fault_enumeration')
     ck.ev.rule = ('census run (fault-free, canonical schedule) numbers the K library allocations made during init_handle, set_parameter and init and records each allocation call site; then alloc_fail(k) runs: quick = for every distinct site its first, last and one seeded middle occurrence plus the first 60 k; '
-                  'thorough = every site x up to 32 occurrences, then all k while the budget lasts; thread_create_fail(j) for every library thread; decoder: every k of init_handle/set_parameter/init and the first frames; '
+                  'thorough = every site x up to 8 occurrences, then a further 1200 k per round (VERIF_ROUNDS=0: every k); thread_create_fail(j) for every library thread; decoder: every k of init_handle/set_parameter/init and the first frames; '
                   'oracle: the call during which the fault fired returns a non-success code, deinit/deinit_handle complete, ledger empty, no crash/hang/sanitizer report; distinct = distinct (k or j, phase)')
     ck.ev.components = core.COMPONENTS_ENC; ck.ev.assumptions = ['allocation numbering is stable because the schedule is the fixed non-preemptive one', 'one fault per run']
     variant = 'plain'; core.build(variant); rng = ck.rng
@@ -757,7 +757,7 @@ def check_c16(tier, seed):
         def phase(k): return 'init_handle' if k <= k_ih else ('set_param' if k <= k_sp else 'init')
         second_quick = (tier == 'quick' and cfgo is not cfgs[0][0])
         ks = set(range(1, 31 if tier == 'quick' else 61)) if not second_quick else set()
-        per_site = 2 if tier == 'quick' else 32
+        per_site = 2 if tier == 'quick' else 8
         for s in r.get('sites', []):
             site, cnt, first, last = s
             ks.add(first)
@@ -788,7 +788,7 @@ def check_c16(tier, seed):
         consume(cases); enumerated += len(cases)
         if tier != 'quick':
             n_rest = len(rest)
-            if ck.rounds > 0: rest = rest[:ck.rounds * 2400]   # a fixed share of the remaining k (VERIF_ROUNDS scales it; VERIF_ROUNDS=0 enumerates every k)
+            if ck.rounds > 0: rest = rest[:ck.rounds * 1200]   # a fixed share of the remaining k (VERIF_ROUNDS scales it; VERIF_ROUNDS=0 enumerates every k)
             complete = len(rest) == n_rest
             while rest:
                 chunk, rest = rest[:400], rest[400:]
